@@ -169,13 +169,18 @@ def main(argv):
     known = load_known(pid)
     violations, known_hits, unreproduced = [], [], []
     seen = set()
-    for w in failures:
+    skipped = 0
+    cap = int(os.environ.get('VERIF_MAX_REPLAYS', '40'))
+    # witnesses that match a recorded finding are replayed last, so that the cap never hides a new violation behind known ones
+    ordered = sorted(failures, key=lambda w_: 1 if any(matches(e, w_) for e in known) else 0)
+    for w in ordered:
         key = json.dumps(w.get('key', w), sort_keys=True, default=str)
         if key in seen:
             continue
         seen.add(key)
-        if len(violations) + len(known_hits) + len(unreproduced) >= int(os.environ.get('VERIF_MAX_REPLAYS', '8')):
-            break
+        if len(violations) + len(known_hits) + len(unreproduced) >= cap:
+            skipped += 1
+            continue
         path, res = replay_in_subprocess(pid, w)
         if res.get('reproduced'):
             hit = next((e for e in known if matches(e, w)), None)
@@ -185,6 +190,8 @@ def main(argv):
                 violations.append((w, path, res))
         else:
             unreproduced.append((w, path, res))
+    if skipped:
+        errors.append(dict(job='replay', error=f'{skipped} distinct counterexamples were not replayed (cap {cap})'))
 
     printed = set()
     for hit, w, path in known_hits:
